@@ -976,14 +976,16 @@ def reentry_rule(ck, m):
             continue
         refused = set()
         for x, tx in b.calls():
-            if callee_decl(tx) not in ('std::str::starts_with', 'std::cmp::PartialEq::eq', 'std::str::eq') or not b.dominates(x, bi):
+            if callee_decl(tx) not in ('std::str::starts_with', 'std::cmp::PartialEq::eq', 'std::str::eq'):
                 continue
+            if not b.dominates(x, bi) and bi in core.reach_tracking_bools(b, 0, avoid=(x,)):
+                continue          # some path reaches the re-entry without passing this test
             same = any((r[0], r[1] if len(r) > 1 else None, r[-1]) in text_roots for r in origins(b, tx['args'][0]))
             consts = [core.const_str(r) for a in tx['args'][1:] for r in origins(b, a)]
             if not same:
                 continue
             for (s2, tt, ft) in core.bool_switches(b, x):
-                if bi in b.reach_from([tt], include_start=True):
+                if bi in core.reach_tracking_bools(b, tt):
                     continue          # the matching text still reaches the re-entry
                 for c in consts:
                     if isinstance(c, str) and callee_decl(tx) == 'std::str::starts_with':
